@@ -17,9 +17,8 @@
 import logging
 import os
 import re
-from itertools import chain
 from pathlib import Path
-from typing import BinaryIO, Iterable, Iterator, Optional
+from typing import BinaryIO, Iterator, Optional
 
 from boolean.boolean import ParseError
 from license_expression import ExpressionError
@@ -40,19 +39,15 @@ SPDX_SNIPPET_INDICATOR = b"SPDX-SnippetBegin"
 _LOGGER = logging.getLogger(__name__)
 
 
-def _join_sorted(items: Iterable[str]) -> str:
-    """Join in a fixed order. Joining a bare set would make the order of the
-    items depend on the hash seed.
-    """
-    return "".join(sorted(items))
-
-
-_END_PATTERN = r"{}[ \t]*$".format(
-    _join_sorted(
-        {
-            r"(?:{})*".format(item)  # pylint: disable=consider-using-f-string
-            for item in chain(
-                (
+# What may follow a value on its line: any run of comment terminators (and of
+# the special endings below), with or without blanks between them, as in
+# '<!-- /* ... */ -->'. The alternation is sorted: a bare set would make the
+# pattern depend on the hash seed.
+_END_PATTERN = r"(?:[ \t]*(?:{}))*[ \t]*$".format(
+    "|".join(
+        sorted(
+            {
+                *(
                     re.escape(style.MULTI_LINE.end)
                     for style in _all_style_classes()
                     if style.MULTI_LINE.end
@@ -60,18 +55,13 @@ _END_PATTERN = r"{}[ \t]*$".format(
                 # These are special endings which do not belong to specific
                 # comment styles, but which we want to nonetheless strip away
                 # while parsing.
-                (
-                    ending
-                    for ending in [
-                        # ex: <tag value="Copyright Jane Doe">
-                        r'"\s*/*>',
-                        r"'\s*/*>",
-                        # ex: [SPDX-License-Identifier: GPL-3.0-or-later] ::
-                        r"\]\s*::",
-                    ]
-                ),
-            )
-        }
+                # ex: <tag value="Copyright Jane Doe">
+                r'"\s*/*>',
+                r"'\s*/*>",
+                # ex: [SPDX-License-Identifier: GPL-3.0-or-later] ::
+                r"\]\s*::",
+            }
+        )
     )
 )
 _LICENSE_IDENTIFIER_PATTERN = re.compile(
